@@ -394,6 +394,23 @@ Proof. intros [W _]. exact W. Qed.
 Lemma winv_pinv s : Winv s -> Pinv s (fun _ => True).
 Proof. intros W. split; [exact W|]. intros id _. right. exact I. Qed.
 
+(* the invariant spelled out *)
+Lemma sinv_spec s : Sinv s ->
+  rowids_ok s /\ (forall r, In r (rows s) -> 0 < rowid r) /\
+  (forall r r', In r (rows s) -> In r' (rows s) -> key_match (rkey r) (b2z (rraw r)) r' = true -> r = r') /\
+  (forall r, In r (rows s) -> sv_wf (rkey r) = true) /\
+  NoDup (refs s) /\ NoDup (map fst (fs s)) /\
+  (forall id, In id (refs s) \/ In id (map fst (fs s)) -> id < next_file s) /\
+  (forall r id, In r (rows s) -> rfile r = Some id -> exists c, fs_get (fs s) id = Some c /\ fsize c = rsize r) /\
+  (forall r, In r (rows s) -> rfile r = None -> rsize r = 0) /\
+  (forall id, In id (map fst (fs s)) -> In id (refs s)) /\
+  counters_ok s.
+Proof.
+  intros [W O]. repeat split; try apply W; try exact O.
+  - intros r id I E. pose proof (w_file s W r I) as F. unfold file_ok in F. rewrite E in F. exact F.
+  - intros r I E. pose proof (w_file s W r I) as F. unfold file_ok in F. rewrite E in F. exact F.
+Qed.
+
 Lemma sinv_init : Sinv init_st.
 Proof.
   split; [split|].
@@ -857,12 +874,6 @@ Proof.
   - intros g [E|[]]. apply Nr. auto.
   - intros o. rewrite Hl. cbn. intuition.
 Qed.
-
-Ltac cull_tail lem :=
-  match goal with |- context[cull ?c ?now ?pg ?x] =>
-    let s3 := fresh "s3" in let cl2 := fresh "cl2" in let C := fresh "C" in
-    pose proof (lem c now pg) as Tl;
-    destruct (cull c now pg x) as [s3 cl2] eqn:C; cbn [fst snd] end.
 
 Lemma sinv_set c s k v rd e tag now pg : Sinv s -> Sinv (fst (op_set c s k v rd e tag now pg)).
 Proof.
